@@ -155,6 +155,31 @@ class Run:
         self.promises = {g: [] for g in self.gens}
         self.frame_steps = None
         self.frames = []
+        self.wake_orders = []
+
+    def peek_wake_order(self, dt_tok):
+        """For the model's tie-break only (never an observation): the order in which heapq will hand
+        out the records that are due in this call.  Among equal deadlines Python leaves it to the
+        heap's history, and it matters even for a generator that never runs (one that is killed
+        before its turn and restarted by a later body is dropped or kept depending on its place), so
+        the execution log alone cannot tell.  Read-only look at the private heap; any failure
+        (another representation) simply gives no information."""
+        import heapq
+        try:
+            proc = self.proc
+            heap = list(proc._wait_queue)
+            if not heap:
+                return []
+            now = proc._timer + to_py(dec(dt_tok))
+            ids = {id(o): g for g, o in self.gens.items()}
+            out = []
+            while heap and now >= heap[0].wait_time:
+                gen = heapq.heappop(heap).generator
+                if gen is not None and id(gen) in ids:
+                    out.append(ids[id(gen)])
+            return out
+        except Exception:             # noqa
+            return []
 
     @property
     def proc(self):
@@ -230,6 +255,7 @@ class Run:
         kind = t[0]
         if kind == 'process':
             self.frame_steps = []
+            self.wake_orders.append(self.peek_wake_order(t[1]))
             try:
                 dt = to_py(dec(t[1]))
                 if self.world is not None:
@@ -291,7 +317,7 @@ class Run:
         # call also lists the bodies of the two calls after it
         hints = []
         for k in range(len(self.frames)):
-            seq = [g for f in self.frames[k:k + 3] for g in f]
+            seq = self.wake_orders[k] + [g for f in self.frames[k:k + 3] for g in f]
             hints.append('hint ' + (','.join(map(str, seq)) or '-'))
         return self.obs, hints
 
